@@ -32,6 +32,8 @@ type Thread struct {
 	Held    bool
 	Leaving bool // client is inside Unlock and has not yet been granted its first step
 	Done    bool
+	Call    int // API call the client is executing (0 none, 1 Lock, 2 TryLock, 3 Unlock); set by the client
+	Steps   int // atomic steps granted inside the current call; reset by the client, counted by the driver
 	grant   chan struct{}
 }
 
